@@ -8,6 +8,9 @@ the method becomes a straight list of three kinds of operation (the constructors
                                      for m in rows: va = abs(L[m][col]); if va `cmp` la: pivrow = m; la = va
                                      if pivrow is <none>: raise; if pivrow != n: swap rows n, pivrow of L and of R
     OElim m p c                      v = L[m][c] / L[p][c];  L[m] -= L[p] * v;  R[m] -= R[p] * v
+    OElimSkip m p c cmp thr          v = L[m][c] / L[p][c];  if abs(v) `cmp` thr: continue;  L[m] -= L[p] * v;  R[m] -= R[p] * v
+                                     (`v == 0`, `not v`, `abs(v) == 0` are read as abs(v) <= 0; the kernel accepts a skip
+                                     guard only when it fires for a multiplier that IS zero: skip_exact)
     OScale r c cmp thr               v = L[r][c]; if abs(v) `cmp` thr: raise;  L[r] /= v;  R[r] /= v
 
 plus how L and R are initialised (which slot of self / which constant) and which entries of which block are returned.
@@ -48,8 +51,9 @@ class Row:
 
 
 class InverseExec:
-    def __init__(self, fn: ast.FunctionDef) -> None:
+    def __init__(self, fn: ast.FunctionDef, consts: dict[str, Any] | None = None) -> None:
         self.fn = fn
+        self.consts = consts or {}      # module-level numeric constants bound once (Classes.consts)
         self.selfname = _params(fn)[0]
         self.env: dict[str, Any] = {}
         self.ops: list[tuple] = []
@@ -69,6 +73,8 @@ class InverseExec:
         if isinstance(n, ast.UnaryOp) and isinstance(n.op, ast.USub):
             v = self.const(n.operand)
             return None if v is None else -v
+        if isinstance(n, ast.Name) and n.id not in self.env and n.id in self.consts:
+            return self.consts[n.id]
         return None
 
     def int_of(self, n: ast.expr) -> int:
@@ -225,6 +231,19 @@ class InverseExec:
                     self.env[s.target.id] = ('int', k)
                     self.block(s.body)
                     self.flush(s)
+            elif isinstance(s, ast.If) and len(s.body) == 1 and isinstance(s.body[0], ast.Continue) and not s.orelse \
+                    and self.skip_test(s.test) is not None:
+                # if <test on the multiplier v>: continue  -- only the row operations with v may follow in this iteration
+                self.flush(s)
+                name, cmp_, thr = self.skip_test(s.test)
+                mv = self.env[name]
+                if len(mv) != 4:
+                    self.err(s, 'multiplier guarded twice')
+                self.env[name] = mv + ((cmp_, thr),)
+                for rest in stmts[i:]:
+                    if not (isinstance(rest, ast.AugAssign) and isinstance(rest.op, ast.Sub)
+                            and any(isinstance(x, ast.Name) and x.id == name for x in ast.walk(rest.value))):
+                        self.err(rest, 'a statement other than the guarded row operation follows a conditional `continue`')
             elif isinstance(s, ast.If):
                 self.flush(s)
                 self.note_names(s)
@@ -327,12 +346,14 @@ class InverseExec:
             if not (isinstance(mult, ast.Name) and isinstance(self.env.get(mult.id), tuple) and self.env[mult.id][0] == 'mult'):
                 self.err(s, 'the factor is not a multiplier computed as L[m][c] / L[p][c]')
             b2, p = self.rowref(rowside)
-            _, mm, pp, c = self.env[mult.id]
+            _, mm, pp, c = self.env[mult.id][:4]
+            guard = self.env[mult.id][4] if len(self.env[mult.id]) > 4 else None
             if b2 != b:
                 self.err(s, 'row of one block updated with a row of the other block')
             if (mm, pp) != (m, p):
                 self.err(s, f'multiplier was computed for rows ({mm}, {pp}) but is applied to rows ({m}, {p})')
-            self.two_sided(('elim', mult.id, m, p, c), b, s, lambda: self.ops.append(('OElim', m, p, c)))
+            self.two_sided(('elim', mult.id, m, p, c), b, s, lambda: self.ops.append(
+                ('OElim', m, p, c) if guard is None else ('OElimSkip', m, p, c, guard[0], guard[1])))
         elif isinstance(s.op, ast.Div):
             v = s.value
             if not (isinstance(v, ast.Name) and isinstance(self.env.get(v.id), tuple) and self.env[v.id][0] == 'diag'):
@@ -349,6 +370,35 @@ class InverseExec:
     def abs_of(self, n: ast.expr) -> ast.expr | None:
         if isinstance(n, ast.Call) and isinstance(n.func, ast.Name) and n.func.id == 'abs' and len(n.args) == 1 and not n.keywords:
             return n.args[0]
+        return None
+
+    def skip_test(self, t: ast.expr) -> tuple[str, str, Fraction] | None:
+        """A test on a multiplier v (computed as L[m][c] / L[p][c]) normalised to `abs(v) CMP literal`:
+        abs(v) CMP lit, lit CMP abs(v) (mirrored), v == 0 / abs(v) == 0 / not v (all: abs(v) <= 0, also for -0.0 and nan)."""
+        def mult_name(e: ast.expr) -> str | None:
+            if isinstance(e, ast.Name) and isinstance(self.env.get(e.id), tuple) and self.env[e.id][0] == 'mult':
+                return e.id
+            return None
+        if isinstance(t, ast.UnaryOp) and isinstance(t.op, ast.Not):
+            nm = mult_name(t.operand)
+            return (nm, 'CLe', Fraction(0)) if nm else None
+        if not (isinstance(t, ast.Compare) and len(t.ops) == 1):
+            return None
+        left, op, right = t.left, t.ops[0], t.comparators[0]
+        opn = type(op).__name__
+        mirror = {'Gt': 'Lt', 'Lt': 'Gt', 'GtE': 'LtE', 'LtE': 'GtE', 'Eq': 'Eq'}
+        if self.const(left) is not None and self.const(right) is None and opn in mirror:
+            left, right, opn = right, left, mirror[opn]
+        c = self.const(right)
+        if c is None:
+            return None
+        inner = self.abs_of(left)
+        nm = mult_name(inner) if inner is not None else None
+        if nm and opn in CMP:
+            return nm, CMP[opn], _q(c, 'inverse: skip threshold')
+        nm = nm or mult_name(left)
+        if nm and opn == 'Eq' and c == 0:
+            return nm, 'CLe', Fraction(0)
         return None
 
     def try_pivot_search(self, s: ast.For) -> bool:
@@ -431,6 +481,14 @@ class InverseExec:
             if rc is None and isinstance(right, ast.Constant) and right.value is None:
                 rc = None
             if isinstance(op, (ast.Eq, ast.Is)) and only_raise and rc == pv[5]:
+                self.env[left.id] = pv[:6] + (True,)
+                return
+            # any other comparison with a number that holds for the sentinel and for none of the rows the search can
+            # select (`pivrow < 0` with sentinel -1) is the same missing-pivot test
+            cmpf = {ast.Lt: lambda a, b: a < b, ast.LtE: lambda a, b: a <= b, ast.Gt: lambda a, b: a > b,
+                    ast.GtE: lambda a, b: a >= b, ast.Eq: lambda a, b: a == b}.get(type(op))
+            if only_raise and cmpf is not None and rc is not None and pv[5] is not None \
+                    and cmpf(pv[5], rc) and not any(cmpf(r, rc) for r in pv[2]):
                 self.env[left.id] = pv[:6] + (True,)
                 return
             # if pivrow != n: swap both; pivrow = n
@@ -519,6 +577,8 @@ def coq_op(op: tuple) -> str:
         return f'OPivotSwap {col} {n} [{"; ".join(map(str, rows))}] {cmp_} {coq_q(init)}'
     if op[0] == 'OElim':
         return f'OElim {op[1]} {op[2]} {op[3]}'
+    if op[0] == 'OElimSkip':
+        return f'OElimSkip {op[1]} {op[2]} {op[3]} {op[4]} {coq_q(op[5])}'
     _, r, c, cmp_, thr = op
     return f'OScale {r} {c} {cmp_} {coq_q(thr)}'
 
@@ -548,7 +608,7 @@ def analyse() -> dict:
         fn = m1[1]
         if len(_params(fn)) != 1:
             raise TranslateError('inverse: signature')
-        P = InverseExec(fn).run()
+        P = InverseExec(fn, C.consts).run()
         _CACHE.update(text=text, P=P, digest=ast_digest(fn))
     return _CACHE
 
